@@ -11,15 +11,15 @@ open Irismod.Sdk Irismod.GoSem
 
 theorem tokenfee_all_translated : Irismod.Gen.PureTokenFee.untranslated = [] := rfl
 theorem tokenfee_translated_pinned : Irismod.Gen.PureTokenFee.translated =
-    ["MintToken_precision_1",
-     "MintToken_mintableAmt_1",
-     "MintToken_guard_1",
-     "MintToken_guard_2",
-     "MintToken_guard_3",
-     "MintToken_cond_4",
-     "GetTokenMintFee_mintFee_1",
-     "feeHandler_communityTaxCoin_1",
-     "calcFeeByBase_actualFee_1"] := rfl
+    ["MintToken_precision_1(token_Scale)",
+     "MintToken_mintableAmt_1(token_MaxSupply,precision,supply)",
+     "MintToken_guard_1(read_owner_String,token_Owner)",
+     "MintToken_guard_2(token_Mintable)",
+     "MintToken_guard_3(coinMinted,mintableAmt)",
+     "MintToken_cond_4(read_recipient_Empty)",
+     "GetTokenMintFee_mintFee_1(fee,params_MintTokenFeeRatio)",
+     "feeHandler_communityTaxCoin_1(fee,tokenTaxRate)",
+     "calcFeeByBase_actualFee_1(baseFee,feeFactor)"] := rfl
 
 /-- token: the community tax of a fee (`feeHandler`) is the model's `taxOf`, as a coin of the fee's denomination -/
 theorem token_taxOf_eq_translation (d : String) (fee : Nat) (rate : Dec) :
